@@ -51,7 +51,7 @@ claimed = {
    note="Trusted: ref/refcoerce (structural recursion from the specification; the scalar kind table is the library's documented one). Undecided and not compared: case-insensitive enum matches, __typename keys, unsigned/small integer kinds, numeric range. Refusing a coercible value is not a violation.",
    ref="DESIGN.md §4 C14"),
  "C15": dict(
-   technique=T + "a field and a directive with 11 arguments of every flavour × every argument source (omitted, 27 literals, variable × 3 declarations × 3 supply modes, variable nested in list/object/custom-scalar literals × the same 9) and every pair of sources on different arguments; oracle: CoerceArgumentValues computed from the case description, compared with ArgumentMap on every validated and coerced case",
+   technique=T + "a field and a directive with 11 arguments of every flavour × every argument source (omitted, 30 literals, variable × 3 declarations × 3 supply modes, variable nested in list/object/custom-scalar literals × the same 9) and every pair of sources on different arguments; oracle: CoerceArgumentValues computed from the case description, compared with ArgumentMap on every validated and coerced case",
    text="Every case is rendered to a document, validated by the library, its variables coerced by the library, and ArgumentMap of the field / directive is compared (keys and values) with the specification's CoerceArgumentValues computed from the check's own description of the case: literal (converted recursively, nested variables substituted) > variable value > argument default > absent. Panics are violations; a recorded one (out-of-range numeric literal for a custom scalar) is excused only under its exact (site, message, trigger) key.",
    note="Trusted: the check's literal model. Only validated documents and coerced variables are judged (the property's precondition). Nested variables with no value at all are undecided (keys still checked).",
    ref="DESIGN.md §4 C15"),
